@@ -49,10 +49,10 @@ def do_import():
             print('imported', dst)
 
 
-def worktree(i):
-    wt = '/tmp/mutwt/%s' % i
+def worktree(i, base='/tmp/mutwt'):
+    wt = '%s/%s' % (base, i)
     if not os.path.exists(wt):
-        os.makedirs('/tmp/mutwt', exist_ok=True)
+        os.makedirs(base, exist_ok=True)
         rc, out = sh('git -C /repo worktree add -q --detach %s HEAD' % wt)
         if rc:
             raise RuntimeError(out)
@@ -60,8 +60,8 @@ def worktree(i):
     return wt
 
 
-def drop_worktree(i):
-    sh('git -C /repo worktree remove --force /tmp/mutwt/%s' % i)
+def drop_worktree(i, base='/tmp/mutwt'):
+    sh('git -C /repo worktree remove --force %s/%s' % (base, i))
 
 
 def failed_tests(out):
@@ -85,18 +85,18 @@ def verify(i):
         rc1, o1 = sh('/venv/bin/python %s/demo.py' % d, cwd=wt, env=env, timeout=600)
         res['demo_fails_with_patch'] = rc1 != 0
         res['demo_output_with_patch'] = o1[-400:]
-        rc2, o2 = sh('/venv/bin/python -m pytest -q -p no:cacheprovider --timeout=900 --continue-on-collection-errors -q --deselect tests/test_benchmarks.py -rf 2>&1 | tail -40',
+        rc2, o2 = sh('/venv/bin/python -m pytest -q -p no:cacheprovider --timeout=900 --continue-on-collection-errors --benchmark-disable -rf 2>&1 | tail -40',
                      cwd=wt, env=env, timeout=3000)
         ft = failed_tests(o2)
         res['new_test_failures'] = sorted(ft - ALWAYS_FAIL)
-        res['tests_pass_with_patch'] = (not (ft - ALWAYS_FAIL)) and ('passed' in o2)
+        res['tests_pass_with_patch'] = (not (ft - ALWAYS_FAIL)) and bool(re.search(r'\d+ passed', o2))
         res['pytest_tail'] = o2.strip().splitlines()[-1] if o2.strip() else ''
     drop_worktree(i)
     mp = os.path.join(d, 'meta.json')
     meta = json.load(open(mp))
     meta['verified'] = res
     meta['verified_ok'] = bool(res.get('demo_passes_without_patch') and res.get('demo_fails_with_patch') and res.get('tests_pass_with_patch'))
-    meta['what_i_ran'] = 'scratch worktree of /repo HEAD: demo.py (exit 0), git apply patch.diff, demo.py (exit != 0), pytest without benchmarks (no new failures); worktree removed'
+    meta['what_i_ran'] = 'scratch worktree of /repo HEAD: demo.py (exit 0), git apply patch.diff, demo.py (exit != 0), the full pytest suite with --benchmark-disable (no failures beyond the always-failing tests of the baseline); worktree removed'
     json.dump(meta, open(mp, 'w'), indent=1)
     print(i, 'verified_ok =', meta['verified_ok'], res.get('new_test_failures'), res.get('pytest_tail'))
 
@@ -104,7 +104,7 @@ def verify(i):
 def detect(i, pids=None):
     d = os.path.join(SEEDED, i)
     meta = json.load(open(os.path.join(d, 'meta.json')))
-    wt = worktree(i)
+    wt = worktree(i, '/tmp/mutdt')
     rc, out = sh('git apply %s/patch.diff' % d, cwd=wt)
     if rc:
         print(i, 'patch does not apply')
@@ -123,7 +123,7 @@ def detect(i, pids=None):
         v = [l for l in out.splitlines() if l.startswith('VIOLATION')]
         det[pid] = dict(exit=rc, violation=v[0] if v else None, wall_s=round(time.time() - t, 1), with_input=bool(v) and 'no-failing-input-found' not in v[0])
         print(i, pid, 'exit', rc, v[0] if v else out.strip().splitlines()[-1][:200])
-    drop_worktree(i)
+    drop_worktree(i, '/tmp/mutdt')
     # restore gen files for the real repo
     sh('PYTHONPATH=/repo PYTHONHASHSEED=0 /venv/bin/python %s/tools/regen.py' % ROOT)
     meta['detection'] = det
